@@ -123,6 +123,9 @@ struct Gen<'a> {
     funcs: Vec<u32>,
     budget: i32,
     sigpar: bool,
+    /// jobs of enclosing shell processes whose `$p_N` is set when the child
+    /// being generated starts: the child inherits the variable, not the job
+    outer_jobs: Vec<u32>,
 }
 
 impl Gen<'_> {
@@ -154,14 +157,27 @@ impl Gen<'_> {
                     out.push(N::Rc(n));
                     out.push(N::Qm);
                 }
+                25..=27 if !self.outer_jobs.is_empty() => {
+                    // waiting for a job of the parent shell: not a child of
+                    // this process, so 127 whatever state the job is in
+                    let id = *self.rng.pick(&self.outer_jobs);
+                    out.push(N::Wait(W::Pid(id)));
+                    out.push(N::Qm);
+                }
                 25..=30 => out.push(N::Qm),
                 31..=48 if depth < 3 => {
+                    let saved = self.outer_jobs.clone();
+                    self.outer_jobs.extend(open.iter().copied());
                     let node = self.pipe(depth + 1);
+                    self.outer_jobs = saved;
                     out.push(node);
                     out.push(N::Qm);
                 }
                 49..=56 if depth < 3 => {
+                    let saved = self.outer_jobs.clone();
+                    self.outer_jobs.extend(open.iter().copied());
                     let body = self.block(depth + 1, 3, allow_bg);
+                    self.outer_jobs = saved;
                     let exit = if self.rng.bool() {
                         Some(*self.rng.pick(&[0u8, 1, 3, 5, 200]))
                     } else {
@@ -171,7 +187,10 @@ impl Gen<'_> {
                     out.push(N::Qm);
                 }
                 57..=64 if depth < 3 => {
+                    let saved = self.outer_jobs.clone();
+                    self.outer_jobs.extend(open.iter().copied());
                     let body = self.block(depth + 1, 3, false);
+                    self.outer_jobs = saved;
                     self.next_var += 1;
                     out.push(N::Cs {
                         var: self.next_var,
@@ -182,7 +201,10 @@ impl Gen<'_> {
                 65..=80 if allow_bg && depth < 2 => {
                     self.next_id += 1;
                     let id = self.next_id;
+                    let saved = self.outer_jobs.clone();
+                    self.outer_jobs.extend(open.iter().copied());
                     let mut body = self.block(depth + 1, 3, depth == 0);
+                    self.outer_jobs = saved;
                     // some jobs take (simulated) time, so that they are still
                     // running when the parent reaches its `wait`
                     if self.rng.below(3) == 0 {
@@ -358,6 +380,7 @@ pub fn generate(rng: &mut Rng, tier: Tier) -> Case {
     let mut g = Gen {
         rng,
         sigpar,
+        outer_jobs: Vec::new(),
         next_id: 0,
         next_var: 0,
         next_fn: 0,
